@@ -353,10 +353,12 @@ func genRecv(r *hv.Rand) {
 // unwrapFrameNo alone
 func genUnwrap(r *hv.Rand) {
 	acks := []uint64{0, 1, 2, 1<<31 - 1, 1 << 31, 1<<31 + 1, 1<<32 - 1, 1 << 32, 1<<32 + 1, 1<<32 + 1<<31 - 1, 1<<32 + 1<<31, 1<<32 + 1<<31 + 1,
-		2<<32 - 1, 2 << 32, 5<<32 + 77, 1<<63 - 1, 1 << 63, 1<<64 - 1<<32 - 2, 1<<64 - 1<<32 - 1}
+		2<<32 - 1, 2 << 32, 5<<32 + 77, 1<<63 - 1, 1 << 63, 1<<64 - 1<<32 - 2, 1<<64 - 1<<32 - 1,
+		1 << 30, 1<<32 + 1<<30 + 5, 1<<32 + 1<<31 - 1<<29, 3<<32 + 1<<31 + 1<<30, 7<<32 + 3<<29}
 	for _, a := range acks {
 		fs := []uint32{0, 1, 1<<31 - 1, 1 << 31, 1<<31 + 1, 1<<32 - 1, uint32(a), uint32(a) + 1, uint32(a) - 1,
-			uint32(a) + 1<<31 - 1, uint32(a) + 1<<31, uint32(a) + 1<<31 + 1, uint32(a) + 1000, uint32(a) - 1000}
+			uint32(a) + 1<<31 - 1, uint32(a) + 1<<31, uint32(a) + 1<<31 + 1, uint32(a) + 1000, uint32(a) - 1000,
+			uint32(a) + 1<<30, uint32(a) - 1<<30, uint32(a) + 1<<30 + 1<<29, uint32(a) - 1<<30 - 1<<29, uint32(a) + 1<<31 - 2, uint32(a) - 1<<31 + 2}
 		for j := 0; j < hv.Scale(4, 40); j++ {
 			fs = append(fs, uint32(r.U64()))
 		}
